@@ -101,7 +101,7 @@ Fixpoint canon (t : ty) : ty :=
   | Iface ms embs =>
       Iface (map (fun p => (fst p, match snd p with
                                    | Sig _ ps rs va => Sig None (map canon ps) (map canon rs) va
-                                   | x => canon x end)) ms) (map canon embs)
+                                   | x => x end)) ms) (map canon embs)
   end.
 
 (* ---------------------------------------------------------------- objects and scopes *)
